@@ -12,7 +12,8 @@ using namespace vc;
 static const double KB = 0.001987191;
 static const int NAT = 7;  // atoms 1-6 used by the variables, atom 7 in no group
 
-struct Comp { const char *name; std::string body; bool fitted; };
+struct Comp { const char *name; std::string body; bool fitted; bool may_refuse = false; };  // may_refuse: a component that need not support total forces -
+// it must either refuse outputTotalForce at configuration time or satisfy the statement like the others
 
 static std::vector<Comp> menu()
 {
@@ -31,6 +32,16 @@ static std::vector<Comp> menu()
                               " vector (0.3, 0.1, -0.2) (-0.4, 0.2, 0.1) (0.1, -0.5, 0.3) (0.2, 0.3, -0.1) (-0.2, -0.1, -0.1)\n }\n", true});
   m.push_back({"distance-minus-distance", " distance {\n componentCoeff 1.0\n group1 { atomNumbers 1 2 }\n group2 { atomNumbers 3 }\n }\n distance {\n componentCoeff -1.0\n group1 { atomNumbers 4 }\n group2 { atomNumbers 5 6 }\n }\n", false});
   m.push_back({"distance-plus-distance", " distance {\n group1 { atomNumbers 1 2 }\n group2 { atomNumbers 3 }\n }\n distance {\n group1 { atomNumbers 4 }\n group2 { atomNumbers 5 6 }\n }\n", false});
+  // components and group options for which total forces are not (or need not be) available: refused, or correct
+  auto opt = [&](const char *name, std::string body) { Comp c{name, body, false}; c.may_refuse = true; m.push_back(c); };
+  opt("inertia", " inertia {\n atoms { atomNumbers 1 2 3 4 5 }\n }\n");
+  opt("inertiaZ", " inertiaZ {\n axis (0.3, -0.5, 1.0)\n atoms { atomNumbers 1 2 3 4 5 }\n }\n");
+  opt("groupCoord", " groupCoord {\n cutoff 2.0\n group1 { atomNumbers 1 2 }\n group2 { atomNumbers 3 4 }\n }\n");
+  opt("coordNum", " coordNum {\n cutoff 2.0\n group1 { atomNumbers 1 2 }\n group2 { atomNumbers 3 4 }\n }\n");
+  opt("distance/dummy-first-group", " distance {\n group1 { dummyAtom (0.1, -0.2, 0.3) }\n group2 { atomNumbers 3 4 }\n }\n");
+  opt("distance/dummy-first-group+oneSiteTotalForce", " distance {\n oneSiteTotalForce on\n group1 { dummyAtom (0.1, -0.2, 0.3) }\n group2 { atomNumbers 3 4 }\n }\n");
+  opt("distance/dummy-second-group", " distance {\n group1 { atomNumbers 1 2 }\n group2 { dummyAtom (0.1, -0.2, 0.3) }\n }\n");
+  opt("distanceZ/dummy-main-group+oneSiteTotalForce", " distanceZ {\n oneSiteTotalForce on\n main { dummyAtom (0.1, -0.2, 0.3) }\n ref { atomNumbers 1 2 }\n }\n");
   return m;
 }
 
@@ -99,6 +110,22 @@ int main(int argc, char **argv)
       cvm::rvector x[NAT];
       geometry(g, x);
       std::string base = std::string("{\"component\":\"") + c.name + "\",\"geometry\":" + std::to_string(g);
+      if (c.may_refuse) {
+        // refused at configuration time: nothing to measure (counted); accepted: everything below applies
+        Opt ot{0.0, false, false, true};
+        vproxy *pt = new vproxy(NAT, true);
+        for (int a = 0; a < NAT; a++) { pt->x[a] = x[a]; pt->m[a] = MASS[a]; }
+        int rcfg = pt->config(conf_text(c, ot, false));
+        bool step_ok = true;
+        if (rcfg == 0) for (int s = 0; s < 2; s++) if (pt->step(s) != 0) step_ok = false;
+        delete pt;
+        r.count("evaluations");
+        if (rcfg != 0) { r.count("components_refusing_total_forces"); r.seen("nontrivial", fnv(base + "refused")); continue; }
+        if (!step_ok) {
+          r.violation(std::string("C07:total-forces-accepted-at-configuration-but-an-error-at-every-step:") + c.name, base + "}");
+          continue;
+        }
+      }
 
       // ---------- (2) linearity: the 3N unit force fields, T = 0 ----------
       Opt o0{0.0, false, false, true};
